@@ -265,9 +265,19 @@ class CWLEmptyScatterConditionalStep(CWLBaseConditionalStep):
     async def _on_false(self, inputs: MutableMapping[str, Token]) -> None:
         # Get empty scatter return value
         if self.scatter_method == "nested_crossproduct":
-            token_value = [
-                ListToken(value=[], tag=get_tag(inputs.values())) for _ in inputs
+            # One nesting level per scatter input, as long as the outer arrays are not empty
+            tag = get_tag(inputs.values())
+            sizes = [
+                len(i.value) if isinstance(i, ListToken) else 0 for i in inputs.values()
             ]
+
+            def _empty_lists(level: int) -> MutableSequence[Token]:
+                return [
+                    ListToken(value=_empty_lists(level + 1), tag=tag)
+                    for _ in range(sizes[level] if level < len(sizes) else 0)
+                ]
+
+            token_value = _empty_lists(0)
         else:
             token_value = []
         # Propagate skip tokens
